@@ -851,8 +851,10 @@ class ArgumentParser(ParserDeprecations, ActionsContainer, ArgumentLinking, argp
                 val = subcfg[key]
                 default = subdefaults[key]
                 class_object_val = None
+                class_changed = False
                 if is_subclass_spec(val):
                     if val["class_path"] != default.get("class_path"):
+                        class_changed = True
                         with parser_context(parent_parser=self):
                             parser = ActionTypeHint.get_class_parser(val["class_path"])
                         default = {"init_args": parser.get_defaults().as_dict()}
@@ -860,7 +862,9 @@ class ArgumentParser(ParserDeprecations, ActionsContainer, ArgumentLinking, argp
                     val = val.get("init_args")
                     default = default.get("init_args")
                 subprefix = prefix + key + (".init_args." if class_object_val else ".")
-                if val == default:
+                if val == default and class_changed:
+                    class_object_val.pop("init_args", None)  # another class than the default's: keep its class_path
+                elif val == default:
                     del subcfg[key]
                 elif isinstance(val, dict) and isinstance(default, dict) and prefix + key not in dict_values:
                     self._dump_delete_default_entries(val, default, dict_values, subprefix)
